@@ -180,7 +180,8 @@ Proof. exact wta_restriction. Qed.
 
 (* Composition lemma kept from the first version: any number of ARBITRARY state transformers that each
    preserve "valid pixels lie in [dmin, dmax]" preserve it.  (The first version displayed, as the "full
-   statement", the same sentence WITHOUT the hypothesis on the steps; over arbitrary functions that
+   statement" -- Definition C09_final_disp_in_global_interval_full, now named C09_arbitrary_steps --, the
+   same sentence WITHOUT the hypothesis on the steps; over arbitrary functions that
    sentence is false -- C09_arbitrary_steps_refuted -- and was never the property's clause: the clause
    speaks of the steps of a pipeline.  It is stated and proved over those steps below.) *)
 Theorem C09_final_disp_in_global_interval_partial :
